@@ -694,7 +694,18 @@ pub fn check(case: &Case18) -> Outcome {
             match catch(|| a.build()) {
                 Err(p) => out.viol(format!("{what}:ctor-panic:{}", normalise(&p.sig())), format!("{} at {}", p.msg, p.loc)),
                 Ok(Err(_)) => out.class("FrameHeader::new:refused"),
-                Ok(Ok(h)) => accepted(what, &h, |b| parser::frame_header::<E>(true)(b).map(|(rest, v)| (v, (b.len() - rest.len()) * 8)).map_err(short), &mut out),
+                Ok(Ok(h)) => {
+                    // the component states the arguments it was made from (not a narrowed reading of them)
+                    let assign_ok = h.channel_assignment() == &a.assignment();
+                    if h.block_size() != a.block || h.bits_per_sample().map_or(false, |b| b != a.bps) || !assign_ok || a.rate > u32::MAX as usize {
+                        out.viol(
+                            format!("{what}:accepted-with-other-values-than-given"),
+                            format!("FrameHeader::new(block {}, assignment {}, {} bits, rate {}) returned a header of block size {}, {:?} bits, {:?}", a.block, a.assign, a.bps, a.rate, h.block_size(), h.bits_per_sample(), h.channel_assignment()),
+                        );
+                        return out;
+                    }
+                    accepted(what, &h, |b| parser::frame_header::<E>(true)(b).map(|(rest, v)| (v, (b.len() - rest.len()) * 8)).map_err(short), &mut out)
+                }
             }
         }
         Case18::Frame(a) => {
@@ -733,6 +744,13 @@ pub fn check(case: &Case18) -> Outcome {
         }
         Case18::Stream { info, via_new, meta, frames } => {
             out.nontrivial = !meta.is_empty() || !frames.is_empty();
+            // `add_frame` adds every block to the total: a total set near the end of the 36-bit range leaves the
+            // serialisable range through frames, not through a constructor (section 9, entries 1 and 10)
+            let set_total = info.ops.iter().filter_map(|o| if let InfoOp::Total(t) = o { Some(*t as u128) } else { None }).last().unwrap_or(0);
+            if set_total + frames.iter().map(|f| f.header.block as u128).sum::<u128>() > (1u128 << 36) - 1 {
+                out.class("Stream:total-leaves-the-36-bit-range-through-add_frame(not judged)");
+                return out;
+            }
             let stream = if *via_new {
                 match catch(|| Stream::new(info.rate, info.channels, info.bps)) {
                     Err(p) => return viol1(out, format!("{what}:ctor-panic:{}", normalise(&p.sig())), format!("{} at {}", p.msg, p.loc)),
